@@ -531,3 +531,32 @@ func (s retSite) Pos() token.Pos {
 	}
 	return s.Ret.Pos()
 }
+
+// withHelpers: fn followed by the module functions (same package) it calls statically, transitively up to depth,
+// excluding methods of interface-implementing receivers other than fn's own. Rules anchored on "the code of fn" use
+// it so that extracting a helper does not hide the construct from them.
+func (p *Prog) withHelpers(fn *ssa.Function, depth int) []*ssa.Function {
+	out := []*ssa.Function{fn}
+	seen := map[*ssa.Function]bool{fn: true}
+	var walk func(f *ssa.Function, d int)
+	walk = func(f *ssa.Function, d int) {
+		if d >= depth {
+			return
+		}
+		eachInstr(f, func(in ssa.Instruction) {
+			c, ok := in.(ssa.CallInstruction)
+			if !ok {
+				return
+			}
+			g := staticCallee(c.Common())
+			if g == nil || seen[g] || g.Blocks == nil || !p.InModule(g) || g.Pkg != fn.Pkg {
+				return
+			}
+			seen[g] = true
+			out = append(out, g)
+			walk(g, d+1)
+		})
+	}
+	walk(fn, 0)
+	return out
+}
